@@ -616,6 +616,35 @@ def must_pass_from(P, fn_qual, from_rx, callee_rx):
 
 
 # ------------------------------------------------------------------------------ COVERS
+def locate_aggregate(P, fn, tpath):
+    """the statement in F that builds a value of the ADT `tpath`, and the Origins to print its operands with. When F hands the
+    construction to a module-private helper, the helper's aggregate is returned with the helper's parameters replaced by the origins
+    of the arguments F passes (so `self.x` / `ciphertext.y` patterns written for F still apply)."""
+    body = P.body(fn)
+    found = None
+    for b in body.B:
+        for st in b['st']:
+            rv = st['rv']
+            if rv['k'] == 'agg' and rv['what'].startswith('adt:' + tpath + '::'):
+                found = (rv, st['ln'])
+    o = Origins(body)
+    if found:
+        return found[0], found[1], o
+    for bi, t in body.calls():
+        h = P.fns.get(callee_resolved(t)) or P.fns.get(callee_path(t))
+        if h is None or h is fn or not module_private(h) or h['argc'] != len(t['args']):
+            continue
+        hb = P.body(h)
+        for b in hb.B:
+            for st in b['st']:
+                rv = st['rv']
+                if rv['k'] == 'agg' and rv['what'].startswith('adt:' + tpath + '::'):
+                    sub = Origins(hb)
+                    sub.param_subst = {i + 1: o.op_str(a) for i, a in enumerate(t['args'])}
+                    return rv, st['ln'], sub
+    return None
+
+
 def covers(P, fn_qual, t_short, s_short, exclude=(), root='self', extra=None):
     """the signed / MACed / AAD struct T built in F carries every field of S (minus `exclude`), each taken from
     `root.<same field>`; `extra` = {field: origin regex} for fields of T that do not come from S"""
@@ -625,16 +654,11 @@ def covers(P, fn_qual, t_short, s_short, exclude=(), root='self', extra=None):
     tf = P.fields(t_short)
     sf = [f for f in P.fields(s_short) if f not in exclude]
     r = Res()
-    agg = None
     tpath = P.adt(t_short)['path']
-    for bi, b in enumerate(body.B):
-        for st in b['st']:
-            rv = st['rv']
-            if rv['k'] == 'agg' and rv['what'].startswith('adt:' + tpath + '::'):
-                agg = (rv, st['ln'])
-    if agg is None:
+    loc = locate_aggregate(P, fn, tpath)
+    if loc is None:
         raise AnchorMissing('`%s` does not build a %s' % (fn_qual, t_short))
-    rv, ln = agg
+    rv, ln, o = loc
     got = {n: o.op_str(op) for n, op in zip(rv['names'], rv['ops'])}
     for f in sf:
         r.site('%s.%s <- %s' % (t_short, f, got.get(f, '<absent>')[:80]))
@@ -957,6 +981,7 @@ def arm_wiring(P, fn_qual, enum_short, expect, what='call', call_rx=None, arg=0,
 def _first_in_arm(body, o, start, crx, arg, what):
     seen = set()
     flags = {}
+    arm_defs = {}
     bi = start
     while bi not in seen:
         seen.add(bi)
@@ -966,8 +991,44 @@ def _first_in_arm(body, o, start, crx, arg, what):
                 rv = st['rv']
                 if rv['k'] == 'agg' and rv['what'].startswith('adt:') and (crx is None or crx.search(rv['what'])):
                     return rv['what'].split('::')[-1]
+        # values the arm itself gives to locals (`let r = match k { A => &mut self.a, B => &mut self.b }; r.call()`): the call after
+        # the join sees them through this arm
+        for st in b['st']:
+            if not st['lhs']['p'] and st['rv']['k'] in ('ref', 'use', 'agg'):
+                rv_ = st['rv']
+                src_ = None
+                if rv_['k'] == 'ref' and not [e for e in rv_['pl']['p'] if e != '*']:
+                    src_ = rv_['pl']['l']
+                elif rv_['k'] == 'use' and rv_['o']['k'] in ('copy', 'move') and not [e for e in rv_['o']['pl']['p'] if e != '*']:
+                    src_ = rv_['o']['pl']['l']
+                if src_ is not None and src_ in arm_defs:
+                    arm_defs[st['lhs']['l']] = arm_defs[src_]        # reborrow / copy of a value this arm defined
+                    continue
+                try:
+                    arm_defs[st['lhs']['l']] = o.def_str(('st', st['rv'], bi, 0), 1)
+                except Exception:
+                    pass
         t = b['term']
         if what == 'call' and t['k'] == 'call' and (crx is None or call_matches(t, crx)):
+            if arg < len(t['args']):
+                a = t['args'][arg]
+                seen_l = set()
+                while a['k'] in ('copy', 'move') and not [e for e in a['pl']['p'] if e != '*'] and a['pl']['l'] not in seen_l:
+                    l0 = a['pl']['l']
+                    seen_l.add(l0)
+                    if l0 in arm_defs:
+                        return arm_defs[l0]
+                    ds = body.defs.get(l0, [])
+                    nxt = None
+                    if len(ds) == 1 and ds[0][0] == 'st':
+                        rv0 = ds[0][1]
+                        if rv0['k'] == 'ref' and not [e for e in rv0['pl']['p'] if e != '*']:
+                            nxt = {'k': 'copy', 'pl': {'l': rv0['pl']['l'], 'p': []}}
+                        elif rv0['k'] == 'use' and rv0['o']['k'] in ('copy', 'move'):
+                            nxt = rv0['o']
+                    if nxt is None:
+                        break
+                    a = nxt
             return o.arg_str(t, arg)
         # `if matches!(x, V) {..} else {..}`: the arm sets a bool flag that a later two-way branch reads; follow the edge the flag selects
         for st in b['st']:
@@ -1042,15 +1103,10 @@ def struct_map(P, fn_qual, target_short, mapping, src_root, exempt=None, variant
     tpath = P.adt(target_short)['path']
     tf = P.fields(target_short, variant)
     r = Res()
-    agg = None
-    for bi, b in enumerate(body.B):
-        for st in b['st']:
-            rv = st['rv']
-            if rv['k'] == 'agg' and rv['what'].startswith('adt:' + tpath + '::'):
-                agg = (rv, st['ln'])
-    if agg is None:
+    loc = locate_aggregate(P, fn, tpath)
+    if loc is None:
         raise AnchorMissing('`%s` does not build a %s' % (fn_qual, target_short))
-    rv, ln = agg
+    rv, ln, o = loc
     got = {n: o.op_str(op) for n, op in zip(rv['names'], rv['ops'])}
     for f in tf:
         if exempt and f in exempt:
